@@ -250,7 +250,7 @@ func genGWant(r *drv.Rng, es []*Ent) *Ent {
 
 func genSt(r *drv.Rng) *St {
 	if r.Chance(1, 6) {
-		return &St{Plain: true, Msg: "x"}
+		return &St{Plain: true, Msg: drv.Pick(r, "x", "x", "EOF", "wrapped EOF")}
 	}
 	s := &St{Code: drv.Pick(r, codesIn...), Msg: drv.Pick(r, msgs...)}
 	for n := r.Intn(3); n > 0 && r.Chance(2, 3); n-- {
@@ -319,7 +319,7 @@ func genErrCase(r *drv.Rng, k string) Case {
 		if e.Plain && r.Chance(1, 2) {
 			// a receive error that is not a gRPC status, and a want it would satisfy if it were read as one
 			// (code Unknown, message unchecked or equal to the error text)
-			w = &St{Code: 2, Msg: drv.Pick(r, "", "not a status: "+e.Msg)}
+			w = &St{Code: 2, Msg: drv.Pick(r, "", e.err().Error())}
 		}
 	}
 	c.SWant = w
